@@ -1,5 +1,11 @@
 //! Engine `reader`: operation histories on the real `DeferredReader` (C02, C09 reader part, C14
 //! reader part).  One case = source bytes + fault flag + read schedule + op list.
+//! Schedule tokens: g<n> give at most n, i Interrupted, l<x> over-report `len + 1 + x`, L<n>
+//! over-report the absolute count n (up to usize::MAX), p<x> fill the slice and panic.
+//! Numeric arguments of ops are full-width (`ra18446744073709551615`); `common::limit_value` feeds
+//! every op that takes a number with values at the limits of usize.  Only the chunk size is never
+//! USED at such a value (no refill happens under it): `2 * chunk_size` overflows / one chunk is not
+//! allocatable, the original code panics (debug) or aborts on allocation (release) there.
 use crate::common::*;
 use flussab::DeferredReader;
 use std::io::{BufRead, BufReader, Cursor, Read};
@@ -126,6 +132,9 @@ pub struct Live<'a> {
     pub trace_head: String,
     pub trace_ops: Vec<Op>,
     pub fails: Vec<String>,
+    /// the reader exposed a window larger than everything ever delivered: no further call is
+    /// made on it (any call could read wild memory); the remaining ops are reported as `dead`
+    pub dead: bool,
 }
 
 impl<'a> Live<'a> {
@@ -163,6 +172,7 @@ impl<'a> Live<'a> {
             trace_head: c.line().split(" o=").next().unwrap_or("").to_string(),
             trace_ops: vec![],
             fails: vec![],
+            dead: false,
         }
     }
 
@@ -211,7 +221,7 @@ impl<'a> Live<'a> {
         while have < target {
             let d = match it.next() {
                 Some(Ev::Intr) => continue,
-                Some(Ev::Lie(_)) | Some(Ev::Panic(_)) => return None,
+                Some(Ev::Lie(_)) | Some(Ev::LieAbs(_)) | Some(Ev::Panic(_)) => return None,
                 Some(Ev::Give(g)) => (*g).max(1).min(self.chunk_now).min(remaining),
                 None => self.chunk_now.min(remaining),
             };
@@ -231,7 +241,7 @@ impl<'a> Live<'a> {
             "C10"
         } else if msg.contains("called the source") || msg.contains("successful reads") || msg.contains("source called after") {
             "C09"
-        } else if msg.contains("did not panic") || msg.contains("exceeds all data") || msg.contains("panicking call") {
+        } else if msg.contains("did not panic") || msg.contains("exceeds all data") || msg.contains("panicking call") || msg.contains("over-report") {
             "C14"
         } else {
             "C02"
@@ -250,7 +260,11 @@ impl<'a> Live<'a> {
                 let _ = std::fs::write(path, format!("{} o={}\n", self.trace_head, fmt_ops(&self.trace_ops)));
             }
         }
+        if self.dead {
+            return "dead".into();
+        }
         let len_before = self.r.buf_len();
+        let lies_before = self.src.0.borrow().lies;
         let calls_before = self.src.0.borrow().calls;
         let prod_before = self.src.0.borrow().productive_calls;
         let complete_before = self.r.is_complete();
@@ -294,7 +308,7 @@ impl<'a> Live<'a> {
             // through that entry point
             Op::Ra(k) => match catch(|| if k == 0 && i % 2 == 1 { self.r.request_byte() } else { self.r.request_byte_at_offset(k) }) {
                 Some(Some(b)) => {
-                    if self.stream_byte(self.cursor + k) != Some(b) {
+                    if self.cursor.checked_add(k).and_then(|p| self.stream_byte(p)) != Some(b) {
                         self.fail(i, format!("request_byte_at_offset({}) = {} differs from stream", k, b));
                     }
                     let prod = self.src.0.borrow().productive_calls - prod_before;
@@ -339,7 +353,7 @@ impl<'a> Live<'a> {
                     if n > len_before {
                         self.fail(i, format!("advance({}) beyond {} did not panic", n, len_before));
                     }
-                    self.cursor += n;
+                    self.cursor = self.cursor.wrapping_add(n);
                     "ok".into()
                 }
                 None => {
@@ -357,7 +371,7 @@ impl<'a> Live<'a> {
                         // (the bytes were delivered before the call: the log only grows)
                         self.fail(i, format!("advance_with_buf({}) returned wrong bytes", n));
                     }
-                    self.cursor += n;
+                    self.cursor = self.cursor.wrapping_add(n);
                     winhex(&b)
                 }
                 None => {
@@ -406,14 +420,27 @@ impl<'a> Live<'a> {
         let (_, largest) = heap_peak_since(heap0);
         // coarse on purpose (Vec capacity doubling, cursor up to 2 chunks + one window behind the
         // buffer start): a leak grows with the position and passes any such constant factor
-        let bound = 16 * self.max_chunk + 8 * self.max_req + 4096;
+        let bound = self.max_chunk.saturating_mul(16).saturating_add(self.max_req.saturating_mul(8)).saturating_add(4096);
         if largest > bound {
             self.fail(i, format!("C10 one call allocated {} bytes at once (chunk <= {}, largest request/pre-buffer {}, bound {})", largest, self.max_chunk, self.max_req, bound));
+        }
+        // ---- a `read` that reports more than its slice holds (or panics) must end the call in a
+        // panic (C14: the count is not trusted, whatever its value); a source that keeps the `Read`
+        // contract never makes a request panic (C02), whatever the argument.  (A chunk size near
+        // usize::MAX is outside this: `2 * chunk_size` and the buffer size are not representable.)
+        let lies_now = self.src.0.borrow().lies;
+        if lies_now != lies_before && res != "panic" {
+            self.fail(i, format!("the source's over-report / panic did not panic the call ({:?} returned {})", op, res));
+        }
+        if lies_now == lies_before && res == "panic" && matches!(op, Op::Rq(_) | Op::Ra(_) | Op::Rm) && self.chunk_now < (1 << 40) {
+            self.fail(i, format!("{:?} panicked although the source kept the Read contract", op));
         }
         // ---- observation + state oracle ----
         let blen = self.r.buf_len();
         // `buf()` itself may panic (debug assertion) once the reader's invariant is broken
-        match catch(|| self.r.buf_ptr() == self.r.buf().as_ptr()) {
+        // (not with a window beyond everything delivered: building that slice is already UB; the
+        // case fails just below)
+        match catch(|| blen > self.total_len || self.r.buf_ptr() == self.r.buf().as_ptr()) {
             Some(true) => {}
             Some(false) => self.fail(i, "buf_ptr() exceeds all data: it is not the start of buf()".into()),
             None => self.fail(i, "buf() panicked: the window exceeds all data the buffer holds".into()),
@@ -425,7 +452,10 @@ impl<'a> Live<'a> {
             None
         };
         match &window {
-            None => self.fail(i, format!("buf_len {} exceeds all data ever delivered", blen)),
+            None => {
+                self.dead = true;
+                self.fail(i, format!("buf_len {} exceeds all data ever delivered", blen))
+            }
             Some(w) => {
                 // Until the inner source is called for the first time the reader may hold only
                 // part of the bytes taken over from the BufReader; afterwards it must hold
@@ -554,6 +584,48 @@ pub fn gen_big_case(rng: &mut Rng) -> Case {
     case
 }
 
+/// An over-reporting `read`: the count it claims is drawn from every magnitude class — just above
+/// the slice, twice the slice, 2^32, 2^63, and `usize::MAX - k` for small `k` and for `k` around
+/// `near` (a guess of the reader's current fill / cursor, so that `position + count` lands on both
+/// sides of the wrap).
+pub fn lie_event(rng: &mut Rng, chunk: usize, near: usize) -> Ev {
+    let small = rng.below(3) as usize;
+    let (chunk, near) = (chunk.min(1 << 40), near.min(1 << 40));
+    match rng.below(12) {
+        0..=2 => Ev::Lie(small),
+        3 => Ev::Lie(chunk.saturating_sub(1) + small),
+        4 => Ev::Lie((1usize << 32) - 2 + small),
+        5 => Ev::LieAbs((1usize << 63) - 1 + small),
+        6 => Ev::LieAbs(1usize << rng.range(8, 62)),
+        7 | 8 => Ev::LieAbs(usize::MAX - small),
+        9 => Ev::LieAbs(usize::MAX - rng.below(40) as usize),
+        10 => Ev::LieAbs(usize::MAX - (near + small).saturating_sub(1)),
+        _ => Ev::LieAbs(usize::MAX - rng.below(2 * near as u64 + 8) as usize),
+    }
+}
+
+impl<'a> Live<'a> {
+    /// Make the NEXT call of the inner source the event `ev` (generator only): the event is put
+    /// at the front of the live schedule and at the matching place of the case's schedule.
+    pub fn inject_next(&mut self, case_sched: &mut Vec<Ev>, ev: Ev) {
+        let mut s = self.src.0.borrow_mut();
+        if s.sched.is_empty() {
+            // calls made after the schedule ran out took the default behaviour (as much as fits);
+            // write them down as explicit events, so that `ev` is met by the same call in a replay
+            // (not if that takes a long list: then nothing is injected)
+            if s.calls > case_sched.len() + 64 {
+                return;
+            }
+            while case_sched.len() < s.calls {
+                case_sched.push(Ev::Give(1 << 40));
+            }
+        }
+        let at = case_sched.len() - s.sched.len().min(case_sched.len());
+        s.sched.push_front(ev);
+        case_sched.insert(at, ev);
+    }
+}
+
 pub fn gen_case(rng: &mut Rng, with_lies: bool, thorough: bool) -> Case {
     if crate::eng_scan::cli_opt_has("scale") {
         return gen_scale(rng, thorough);
@@ -586,7 +658,12 @@ pub fn gen_case(rng: &mut Rng, with_lies: bool, thorough: bool) -> Case {
         let e = if rng.chance(1, 8) {
             Ev::Intr
         } else if with_lies && rng.chance(1, 25) {
-            if rng.chance(1, 2) { Ev::Lie(rng.below(3) as usize) } else { Ev::Panic(rng.below(3) as usize) }
+            if rng.chance(1, 2) {
+                let near = rng.below(len as u64 + 2) as usize;
+                lie_event(rng, chunk, near)
+            } else {
+                Ev::Panic(rng.below(3) as usize)
+            }
         } else {
             match style {
                 0 => Ev::Give(1),
@@ -611,8 +688,23 @@ pub fn gen_case(rng: &mut Rng, with_lies: bool, thorough: bool) -> Case {
     let mut live = Live::new(&case);
     let nops = rng.range(1, if thorough { 120 } else { 60 });
     let mut chunk_now = chunk;
-    for i in 0..nops {
+    // one case in six draws the numeric argument of every sixth op from the limits of usize
+    // (`limit_value`): every operation that takes a number meets usize::MAX, 2^63, 2^32 … ± 1
+    let limits = rng.chance(1, 6);
+    let mut i = 0;
+    let mut step = |live: &mut Live, case: &mut Case, op: Op| {
+        case.ops.push(op);
+        live.step(case.ops.len() - 1, op);
+    };
+    for _ in 0..nops {
         let blen = live.r.buf_len();
+        if with_lies && rng.chance(1, 25) {
+            // the next read over-reports by an amount chosen against the CURRENT state: with
+            // `usize::MAX - k`, k around the buffered length / the cursor / their sum
+            let near = (*rng.pick(&[blen, live.cursor, live.cursor.saturating_add(blen), blen.saturating_add(chunk_now)])).min(1 << 40);
+            let ev = lie_event(rng, chunk_now, near);
+            live.inject_next(&mut case.sched, ev);
+        }
         let op = match rng.below(20) {
             0..=3 => {
                 let n = match rng.below(4) {
@@ -669,9 +761,51 @@ pub fn gen_case(rng: &mut Rng, with_lies: bool, thorough: bool) -> Case {
         } else {
             op
         };
-        case.ops.push(op);
-        live.step(i as usize, op);
+        let op = if limits && rng.chance(1, 6) {
+            let v = limit_value(rng);
+            match op {
+                Op::Rq(_) => Op::Rq(v),
+                Op::Ra(_) => Op::Ra(v),
+                Op::Ad(_) => Op::Ad(v),
+                Op::Ab(_) => Op::Ab(v),
+                Op::Sp(_) => Op::Sp(v as u64),
+                Op::Sc(_) => {
+                    // A chunk size of that magnitude cannot be used for a refill (`2 * chunk_size`
+                    // overflows, or the buffer of one chunk is not allocatable: the process would
+                    // abort in the original code as well).  It is set, a few calls that need no
+                    // refill are made under it, and a usable size is set again; on a reader that is
+                    // complete (no refill ever again) it stays.
+                    step(&mut live, &mut case, Op::Sc(v));
+                    for _ in 0..rng.range(0, 3) {
+                        let blen = live.r.buf_len();
+                        let o = match rng.below(7) {
+                            0 => Op::Rq(rng.range(0, blen as u64) as usize),
+                            1 if blen > 0 => Op::Ra(rng.below(blen as u64) as usize),
+                            2 => Op::Ad(rng.range(0, blen as u64 + 1) as usize),
+                            3 => Op::Ab(rng.range(0, blen as u64 + 1) as usize),
+                            4 => Op::Sp(limit_value(rng) as u64),
+                            5 => Op::Ck,
+                            _ => Op::Sm,
+                        };
+                        step(&mut live, &mut case, o);
+                    }
+                    if live.r.is_complete() && rng.chance(1, 2) {
+                        chunk_now = v;
+                        Op::Rm
+                    } else {
+                        chunk_now = *rng.pick(&[1usize, 2, 3, 5, 8, 13, 64]);
+                        Op::Sc(chunk_now)
+                    }
+                }
+                o => o,
+            }
+        } else {
+            op
+        };
+        step(&mut live, &mut case, op);
+        i += 1;
     }
+    let _ = i;
     case
 }
 
@@ -722,7 +856,12 @@ fn short_events(rng: &mut Rng, chunk: usize, n: usize) -> Vec<Ev> {
             if rng.chance(1, 8) {
                 Ev::Intr
             } else if lies && rng.chance(1, 10) {
-                if rng.chance(1, 2) { Ev::Lie(rng.below(3) as usize) } else { Ev::Panic(rng.below(3) as usize) }
+                if rng.chance(1, 2) {
+                    let near = *rng.pick(&[chunk, 2 * chunk, 3 * chunk + 1, 1 << 20, 80]);
+                    lie_event(rng, chunk, near)
+                } else {
+                    Ev::Panic(rng.below(3) as usize)
+                }
             } else {
                 Ev::Give(match style {
                     0 => 1,
@@ -737,10 +876,18 @@ fn short_events(rng: &mut Rng, chunk: usize, n: usize) -> Vec<Ev> {
 
 /// A few requests, refills, advances under whatever schedule is left: the part of a scale case
 /// where the number of reads per refill, the window and the bookkeeping are looked at.
-fn probe(rng: &mut Rng, live: &mut Live, ops: &mut Vec<Op>, n: usize, sizes: &[usize]) {
+fn probe(rng: &mut Rng, live: &mut Live, sched: &mut Vec<Ev>, ops: &mut Vec<Op>, n: usize, sizes: &[usize]) {
+    let lies = crate::eng_scan::cli_opt_has("lies");
     for _ in 0..n {
         let blen = live.r.buf_len();
         let c = live.chunk_now;
+        if lies && rng.chance(1, 8) {
+            // an over-report sized against the state reached at scale (`usize::MAX - k`, k around
+            // the buffered length / the position / the chunk size)
+            let near = *rng.pick(&[blen, live.cursor, live.cursor.saturating_add(blen), blen.saturating_add(c), 2 * c]);
+            let ev = lie_event(rng, c, near);
+            live.inject_next(sched, ev);
+        }
         let op = match rng.below(24) {
             0..=5 => Op::Rm,
             6..=10 => Op::Rq(blen + *rng.pick(&[1usize, 1, 2, 17, c.saturating_sub(1), c, c + 1])),
@@ -754,6 +901,21 @@ fn probe(rng: &mut Rng, live: &mut Live, ops: &mut Vec<Op>, n: usize, sizes: &[u
             21 => Op::Sc((*rng.pick(sizes)).min(1 << 17)),
             22 => if rng.chance(1, 3) { Op::Ad(blen + 1) } else { Op::Ra(blen) },
             _ => Op::Sp(if rng.chance(1, 2) { *rng.pick(sizes) as u64 } else { live.cursor as u64 }),
+        };
+        // numeric arguments at the limits of usize (not the chunk size: a refill would need a
+        // buffer of that size)
+        let op = if rng.chance(1, 12) {
+            let v = limit_value(rng);
+            match op {
+                Op::Rq(_) => Op::Rq(v),
+                Op::Ra(_) => Op::Ra(v),
+                Op::Ad(_) => Op::Ad(v),
+                Op::Ab(_) => Op::Ab(v),
+                Op::Sp(_) => Op::Sp(v as u64),
+                o => o,
+            }
+        } else {
+            op
         };
         ops.push(op);
         live.step(ops.len() - 1, op);
@@ -872,7 +1034,7 @@ fn gen_scale_case(rng: &mut Rng, dim: usize, size: usize) -> Case {
                 push(&mut live, &mut ops, Op::Ad(r));
             }
             let n = rng.range(8, 16) as usize;
-            probe(rng, &mut live, &mut ops, n, &sizes);
+            probe(rng, &mut live, &mut case.sched, &mut ops, n, &sizes);
             case.ops = ops;
         }
         D_BULK => {
@@ -916,7 +1078,7 @@ fn gen_scale_case(rng: &mut Rng, dim: usize, size: usize) -> Case {
             }
             push(&mut live, &mut ops, Op::Sc(*rng.pick(&[16usize, 512, 4096, 16384])));
             let n = rng.range(5, 9) as usize;
-            probe(rng, &mut live, &mut ops, n, &sizes);
+            probe(rng, &mut live, &mut case.sched, &mut ops, n, &sizes);
             case.ops = ops;
         }
         D_PRE => {
@@ -946,7 +1108,7 @@ fn gen_scale_case(rng: &mut Rng, dim: usize, size: usize) -> Case {
                 stream_through(rng, &mut live, &mut ops, size + dlen, 130);
             }
             let n = rng.range(4, 8) as usize;
-            probe(rng, &mut live, &mut ops, n, &sizes);
+            probe(rng, &mut live, &mut case.sched, &mut ops, n, &sizes);
             case.ops = ops;
         }
         D_CHUNK => {
@@ -978,7 +1140,7 @@ fn gen_scale_case(rng: &mut Rng, dim: usize, size: usize) -> Case {
             let blen = live.r.buf_len();
             push(&mut live, &mut ops, Op::Ad(blen));
             let n = rng.range(4, 8) as usize;
-            probe(rng, &mut live, &mut ops, n, &sizes);
+            probe(rng, &mut live, &mut case.sched, &mut ops, n, &sizes);
             case.ops = ops;
         }
         D_END => {
@@ -1034,7 +1196,7 @@ fn gen_scale_case(rng: &mut Rng, dim: usize, size: usize) -> Case {
             let blen = live.r.buf_len();
             push(&mut live, &mut ops, Op::Ad(blen - blen.min(*rng.pick(&[0usize, 1, 9]))));
             let n = rng.range(4, 8) as usize;
-            probe(rng, &mut live, &mut ops, n, &sizes);
+            probe(rng, &mut live, &mut case.sched, &mut ops, n, &sizes);
             case.ops = ops;
         }
     }
